@@ -264,7 +264,46 @@ class Repo:
         m = self.module(mod)
         if qual not in m.functions:
             raise AnalysisError('anchor vanished: function %s:%s' % (mod, qual))
-        return m.functions[qual]
+        return self._with_new_helpers_inlined(m.functions[qual])
+
+    # ---- helpers that the pinned tree does not have are read in place
+    _PINNED = None
+
+    def _with_new_helpers_inlined(self, f):
+        """The anchored functions are read with every helper that did NOT exist on the pinned tree (sa/pinned_names.json: the functions of each module, the methods of
+        each class) inlined at its call statements: a refactoring that moves a few statements of an anchored function into a new method / module-level function
+        leaves the body the rules read unchanged.  Functions and methods that exist on the pinned tree stay calls - the rules name them."""
+        cache = self.__dict__.setdefault('_inl_cache', {})
+        if f.fq in cache:
+            return cache[f.fq]
+        out = f
+        try:
+            if Repo._PINNED is None:
+                import json as _json
+                Repo._PINNED = _json.load(open(os.path.join(os.path.dirname(os.path.abspath(__file__)), 'pinned_names.json')))
+            pin = Repo._PINNED.get(f.module.name)
+            if pin is not None:
+                callables = {}
+                if f.cls is not None:
+                    known = set(pin['classes'].get(f.cls.name, []))
+                    if f.cls.name in pin['classes']:
+                        for n, g in f.cls.methods.items():
+                            if n not in known and g is not f:
+                                callables[n] = (g.node, 'static' if g.is_static() else 'method')
+                for q, g in f.module.functions.items():
+                    if g.cls is None and '.' not in q and q not in pin['functions'] and g is not f:
+                        callables[q] = (g.node, 'func')
+                if callables:
+                    from .expr import inline_new_helpers
+                    node = inline_new_helpers(f.node, callables)
+                    if node is not f.node:
+                        out = FuncInfo(f.module, f.qual, node, cls=f.cls, parent=f.parent)
+                        out.forced = f.forced
+                        out.nested = f.nested
+        except Exception:
+            out = f
+        cache[f.fq] = out
+        return out
 
     def has_func(self, mod, qual):
         return mod in self.modules and qual in self.modules[mod].functions
@@ -392,7 +431,7 @@ class Repo:
                     started = True
                 continue
             if isinstance(c, ClassInfo) and name in c.methods:
-                return c.methods[name]
+                return self._with_new_helpers_inlined(c.methods[name])
         return None
 
     def subclasses_of(self, ci):
